@@ -445,6 +445,14 @@ def sample_idx(n, ncorpus):
     return [i for i in picks if 0 <= i < n][:4]
 
 
+def safe_shrink(prop, case):
+    """a property's shrinker, tolerant of case kinds it does not know"""
+    try:
+        yield from prop.shrink(case)
+    except (KeyError, IndexError, TypeError):
+        return
+
+
 def neighbourhood(prop, case, rnd):
     yield case
     if hasattr(prop, "shrink"):
@@ -452,7 +460,7 @@ def neighbourhood(prop, case, rnd):
         frontier = [case]
         while frontier and seen < 150:
             c = frontier.pop(0)
-            for c2 in prop.shrink(c):
+            for c2 in safe_shrink(prop, c):
                 seen += 1
                 yield c2
                 if len(frontier) < 30:
@@ -476,7 +484,7 @@ def shrink_failure(prop, case, failure, known):
     steps = 0
     while progress and steps < 200:
         progress = False
-        for c2 in prop.shrink(cur):
+        for c2 in safe_shrink(prop, cur):
             steps += 1
             try:
                 f2 = prop.oracle(c2, prop.impl(c2))
@@ -508,7 +516,7 @@ def shrink_mismatch(prop, case, mode):
     steps = 0
     while progress and steps < 40:
         progress = False
-        for c2 in prop.shrink(cur):
+        for c2 in safe_shrink(prop, cur):
             steps += 1
             if differs(c2):
                 cur, progress = c2, True
